@@ -12,7 +12,7 @@ PIDS = [f"C{i:02d}" for i in range(1, 18)]
 def prepare(patch, base):
     """scratch checkout of /repo HEAD with the patch applied (3-way, so patches made on a slightly older HEAD merge)"""
     dest = os.path.join(base, str(abs(hash(patch))))
-    r = subprocess.run(["git", "-C", "/repo", "worktree", "add", "-q", "--detach", dest, "HEAD"], capture_output=True, text=True)
+    r = subprocess.run(["git", "-C", "/repo", "worktree", "add", "-q", "--detach", dest, os.environ.get("VERIF_BASE", "HEAD")], capture_output=True, text=True)
     if r.returncode != 0:
         return None, "worktree: " + r.stderr[:200]
     r = subprocess.run(["git", "-C", dest, "apply", "--3way", patch], capture_output=True, text=True)
